@@ -59,6 +59,22 @@ pub fn send(props: &ActorProperties, v: u64) -> u8 {
     }
 }
 
+/// the cluster entry point (a message that arrives in serialized form): same result codes as `send`
+#[cfg(feature = "cluster")]
+pub fn send_serialized(props: &ActorProperties, v: u64) -> u8 {
+    use crate::Message;
+    let own = v.serialize().unwrap();
+    match props.send_serialized(own).map_err(|e| *e) {
+        Ok(()) => 0,
+        Err(MessagingErr::SendErr(m)) => match <u64 as Message>::deserialize(m) {
+            Ok(x) if x == v => 1,
+            _ => 2,
+        },
+        Err(MessagingErr::InvalidActorType) => 3,
+        Err(MessagingErr::ChannelClosed) => 4,
+    }
+}
+
 /// type-checked entry (C02 wrong-type gate): 0 Ok, 1 SendErr, 3 InvalidActorType
 pub fn send_checked_wrong_type(props: &ActorProperties, v: u32) -> u8 {
     match props.send_message::<u32>(v) {
@@ -126,6 +142,10 @@ impl Detached {
 impl Handle {
     pub fn send(&self, v: u64) -> u8 {
         send(&self.0, v)
+    }
+    #[cfg(feature = "cluster")]
+    pub fn send_serialized(&self, v: u64) -> u8 {
+        send_serialized(&self.0, v)
     }
     pub fn send_wrong_type(&self, v: u32) -> u8 {
         send_checked_wrong_type(&self.0, v)
